@@ -5,11 +5,6 @@ from extract import *
 SHORT = 'codec'
 
 ENV = '''
-#[derive(Debug, Clone, Copy, PartialEq, Eq, Structural)]
-pub struct StatusCode { pub bits: u32 }
-impl StatusCode {
-    pub const BadTcpMessageTooLarge: StatusCode = StatusCode { bits: 0x8080_0000 };
-}
 pub struct DecodingOptions { pub max_message_size: usize }
 pub struct Message { pub id: int }
 pub mod io {
@@ -171,6 +166,7 @@ def build_for(manifest, pid):
     a.add('use vstd::prelude::*;\nverus! {\nglobal size_of usize == 8;\n', 'prelude', 'env')
     a.add(norm_vis(tt.const('MESSAGE_HEADER_LEN')), 'consts', 'env')
     a.add(norm_vis(tt.enum('MessageType')) + '\n' + norm_vis(tt.struct('MessageHeader', derive='Clone, Copy, PartialEq, Eq, Structural')) + '\n' + norm_vis(src.struct('TcpCodec')), 'types', 'env')
+    a.add(status_code_struct(manifest), 'status codes', 'env')      # every status code of the real file (D14)
     a.add(ENV, 'env', 'env')
     a.add('impl TcpCodec {')
     a.add(f, 'decode', 'fn')
